@@ -173,7 +173,7 @@ EffSchedule(T, o) ==
 \* branch / handoff cut resolution.  x: 0 none, 1 from_seq (y), 2 from_message (y = frame seq; must be a message),
 \* 3 both, 4 unknown message id.  handoff only: z: 0 text summary, 1 artifact id that does not exist, 2 neither,
 \* 3 text + artifact id that does not exist, 4 id of an existing artifact (the summary of the thread's newest checkpoint),
-\* 5 blank text (accepted: the bundle written for it is the resolvable summary)
+\* 5 blank text (accepted: the bundle written for it is the resolvable summary), 6 blank artifact id and no text (names nothing)
 LineageCut(T, o) ==
     IF o.x = 3 THEN [ok |-> FALSE, why |-> "both_selectors"]
     ELSE IF o.x = 1 THEN
@@ -189,7 +189,7 @@ EffLineage(T, o, kind) ==
     IF kind = "handoff" /\ o.z = 2 THEN Fail("summary_required")
     ELSE LET c == LineageCut(T, o) IN
          IF ~c.ok THEN Fail(c.why)
-         ELSE IF kind = "handoff" /\ o.z \in {1, 3} THEN Fail("summary_artifact_not_found")   \* a handoff always carries a resolvable summary
+         ELSE IF kind = "handoff" /\ o.z \in {1, 3, 6} THEN Fail("summary_artifact_not_found")   \* a handoff always carries a resolvable summary
          ELSE [ok |-> TRUE, resp |-> [cut |-> c.cut, msg |-> c.msg], new |-> <<>>,
                child |-> <<F("created", -1, -1), F(kind, c.cut, c.msg)>>]
 
@@ -243,7 +243,7 @@ OpsFor(t) ==
   \cup {O("compile", t, m, -1, -1, -1) : m \in msgs \cup {0}}
   \cup {O("cursor_rotate", t, key, -1, -1, -1) : key \in {-1, 0, 1}}
   \cup {O(kind, t, 0, -1, z, -1) : kind \in {"branch", "handoff"}, z \in {0, 1, 2, 3}}
-  \cup {O("handoff", t, 0, -1, 5, -1)}
+  \cup {O("handoff", t, 0, -1, z, -1) : z \in {5, 6}}
   \cup {O("handoff", t, 0, -1, 4, -1) : z \in IF Idx(T, "ckpt") = {} THEN {} ELSE {4}}
   \cup {O(kind, t, 1, q, 0, -1) : kind \in {"branch", "handoff"}, q \in 0..(Len(T) + 1)}
   \cup {O(kind, t, 2, q, 0, -1) : kind \in {"branch", "handoff"}, q \in 0..(Len(T) - 1)}
